@@ -57,6 +57,8 @@ def table_macros():
         for name, ty, kind in TABLES:
             x = "%s_%s" % (side, name)
             out.append("#define W_%s %s" % (x, _w(side, kind)))
+            out.append("#define FOC_%s FOCUS_%s" % (x, name))
+            out.append("#define ISSNAP_%s %d" % (x, 1 if side == "snap" else 0))
             if kind == "lev":
                 out.append("#define LEN_%s (*%s_n)" % (x, x))
                 out.append("#define SETLEN_%s(n) (*%s_n = (n))" % (x, x))
@@ -65,8 +67,12 @@ def table_macros():
                 out.append('#define SETLEN_%s(n) FSL_CHECK((n) == LEN_%s, "container model: whole-array assignment between equal shapes (xtensor would resize the destination)")' % (x, x))
     for x in ("elevation", "elevation_snapshot"):
         out.append("#define W_%s 1" % x)
+        out.append("#define FOC_%s 1" % x)
+        out.append("#define ISSNAP_%s %d" % (x, 1 if x == "elevation_snapshot" else 0))
         out.append("#define LEN_%s (gsize)" % x)
         out.append('#define SETLEN_%s(n) FSL_CHECK((n) == LEN_%s, "container model: whole-array assignment between equal shapes (xtensor would resize the destination)")' % (x, x))
+    for name, ty, kind in TABLES:
+        out.append("#ifndef FOCUS_%s\n#define FOCUS_%s 0\n#endif" % (name, name))
     return "\n".join(out) + "\n"
 
 
@@ -114,12 +120,17 @@ static inline void fsl_assign_col0_d(double *dst, size_t dst_w, const double *sr
         __CPROVER_decreases(nrows - k)
     { dst[k * dst_w] = src[k * src_w]; }
 }
-#define FSL_ASSIGN_ALL(d, s) do { \
+/* write-target lemma split: a group follows the assignments into its focus table(s) only.  An assignment into another
+ * table writes that table's own, separately allocated buffer and nothing else, so it is skipped after the (syntactic) frame
+ * check that its target is a snapshot table. */
+#define FSL_NOT_FOCUS(d) FSL_CHECK(ISSNAP_##d, "C16 save.no_alias: the target of an assignment is a table of the snapshot, never of the source")
+#define FSL_ASSIGN_ALL(d, s) do { if (FOC_##d) { \
     FSL_CHECK(W_##d == W_##s, "container model: whole-array assignment between equal shapes (xtensor would resize the destination)"); \
     _Generic((d), size_t *: fsl_assign_all_z, double *: fsl_assign_all_d)((d), (s), LEN_##s); \
-    SETLEN_##d(LEN_##s); } while (0)
-#define FSL_ASSIGN_COL0(d, s) \
-    _Generic((d), size_t *: fsl_assign_col0_z, double *: fsl_assign_col0_d)((d), W_##d, (s), W_##s, gsize)
+    SETLEN_##d(LEN_##s); } else { FSL_NOT_FOCUS(d); } } while (0)
+#define FSL_ASSIGN_COL0(d, s) do { if (FOC_##d) { \
+    _Generic((d), size_t *: fsl_assign_col0_z, double *: fsl_assign_col0_d)((d), W_##d, (s), W_##s, gsize); \
+    } else { FSL_NOT_FOCUS(d); } } while (0)
 """ + table_macros()
 
 # ---------------------------------------------------------------- vocabulary of the objects in scope
@@ -171,10 +182,15 @@ G_ARGS = "gsize, snap_single_flow, src_single_flow, %s, %s" % (_args("src"), _ar
 BYTES = {"rec": {"src": "SRC_REC_BYTES", "snap": "DST_REC_BYTES"}, "don": {"src": "DON_BYTES", "snap": "DON_BYTES"}}
 
 
-def _fresh():
+def _sel(focus):
+    return [t for t in TABLES if focus is None or t[0] in focus]
+
+
+def _fresh(focus=None):
+    """only the focus tables are real objects in a group (write-target lemma split)"""
     out = ["__CPROVER_requires(0 < gsize && gsize <= SNAP_NMAX)"]
     for side in ("src", "snap"):
-        for name, ty, kind in TABLES:
+        for name, ty, kind in _sel(focus):
             x = "%s_%s" % (side, name)
             if kind in BYTES:
                 out.append("__CPROVER_requires(__CPROVER_is_fresh(%s, gsize * %s))" % (x, BYTES[kind][side]))
@@ -183,17 +199,17 @@ def _fresh():
             else:
                 out.append("__CPROVER_requires(__CPROVER_is_fresh(%s, gsize * 8 + 8))" % x)
                 out.append("__CPROVER_requires(__CPROVER_is_fresh(%s_n, 8))" % x)
+                out.append("__CPROVER_requires(*%s_n <= gsize + 1)" % x)
     # shape facts established by the constructors (C20 contracts): a single-flow graph has one receiver column;
     # a multi-direction snapshot exists only in a sequence that is not all-single, so the live graph has the same width
-    out.append("__CPROVER_requires(*src_bfs_levels_n <= gsize + 1 && *snap_bfs_levels_n <= gsize + 1)")
     out.append("__CPROVER_requires(snap_single_flow ==> DST_W == 1)")
     out.append("__CPROVER_requires(!snap_single_flow ==> SRC_W == DST_W)")
     return "\n".join(out) + "\n"
 
 
-def _snap_assigns():
+def _snap_assigns(focus=None):
     t = []
-    for name, ty, kind in TABLES:
+    for name, ty, kind in _sel(focus):
         t.append("__CPROVER_object_whole(snap_%s)" % name)
         if kind == "lev":
             t.append("*snap_%s_n" % name)
@@ -225,18 +241,20 @@ def unchanged(name, ty, kind):
     return _eq(ty, d + "[AGC]", "__CPROVER_old(%s[AGC])" % d)
 
 
-def covers_ensures(guard=""):
-    return "".join("__CPROVER_ensures(%s%s)  /* C16 save.covers_state: %s */\n" % (guard, covers(*t), t[0]) for t in TABLES)
+def covers_ensures(focus=None, guard=""):
+    return "".join("__CPROVER_ensures(%s%s)  /* C16 save.covers_state: %s */\n" % (guard, covers(*t), t[0]) for t in _sel(focus))
 
 
-save_graph = Unit(
-    name="snapshot_save_graph", file=SNAP_H,
-    anchor=r"void _save\(const FG& graph_impl, FG& graph_impl_snapshot\) const",
-    sig="void snapshot_save_graph(%s)" % G_PARAMS,
-    pre=MODEL, rules=GRAPH_RULES,
-    contract=_fresh() + "/* C16 save.no_alias: only the snapshot's tables are in the write frame */\n"
-             "__CPROVER_assigns(%s)\n" % _snap_assigns() + covers_ensures(),
-)
+def make_save_graph(focus=None):
+    return Unit(
+        name="snapshot_save_graph", file=SNAP_H,
+        anchor=r"void _save\(const FG& graph_impl, FG& graph_impl_snapshot\) const",
+        sig="void snapshot_save_graph(%s)" % G_PARAMS,
+        pre=MODEL, rules=GRAPH_RULES,
+        contract=_fresh(focus) + "/* C16 save.no_alias: only the snapshot's tables are in the write frame */\n"
+                 "__CPROVER_assigns(%s)\n" % _snap_assigns(focus) + covers_ensures(focus),
+    )
+
 
 E_PARAMS = "size_t gsize, double *elevation, double *elevation_snapshot"
 E_FRESH = ("__CPROVER_requires(0 < gsize && gsize <= SNAP_NMAX)\n"
@@ -266,23 +284,26 @@ SAVE_RULES = [
 ]
 # AGC: second ghost cell for the "untouched when the flag is off" clauses (must be in range for __CPROVER_old)
 SAVE_PRE = "size_t AGC;\n"
-save = Unit(
-    name="snapshot_save", file=SNAP_H,
-    anchor=r"void save\(const FG& graph_impl,\s*graph_impl_map& graph_impl_snapshots,\s*const data_array_type& elevation,\s*elevation_map& elevation_snapshots\) const",
-    sig="void snapshot_save(_Bool op_save_graph, _Bool op_save_elevation, %s, double *elevation, double *elevation_snapshot)" % G_PARAMS,
-    pre=SAVE_PRE, rules=SAVE_RULES,
-    contract=_fresh() + r"""
+
+
+def make_save(focus=None):
+    return Unit(
+        name="snapshot_save", file=SNAP_H,
+        anchor=r"void save\(const FG& graph_impl,\s*graph_impl_map& graph_impl_snapshots,\s*const data_array_type& elevation,\s*elevation_map& elevation_snapshots\) const",
+        sig="void snapshot_save(_Bool op_save_graph, _Bool op_save_elevation, %s, double *elevation, double *elevation_snapshot)" % G_PARAMS,
+        pre=SAVE_PRE, rules=SAVE_RULES,
+        contract=_fresh(focus) + r"""
 __CPROVER_requires(__CPROVER_is_fresh(elevation, gsize * 8) && __CPROVER_is_fresh(elevation_snapshot, gsize * 8))
 __CPROVER_requires(AGC < gsize)
 __CPROVER_assigns(%s, __CPROVER_object_whole(elevation_snapshot))
-""" % _snap_assigns()
-    + covers_ensures("op_save_graph ==> ")
-    + "".join("__CPROVER_ensures(!op_save_graph ==> %s)  /* no graph snapshot requested: %s untouched */\n" % (unchanged(*t), t[0]) for t in TABLES)
-    + r"""
+""" % _snap_assigns(focus)
+        + covers_ensures(focus, "op_save_graph ==> ")
+        + "".join("__CPROVER_ensures(!op_save_graph ==> %s)  /* no graph snapshot requested: %s untouched */\n" % (unchanged(*t), t[0]) for t in _sel(focus))
+        + r"""
 __CPROVER_ensures(op_save_elevation ==> (AG < gsize ==> SAME_D(elevation_snapshot[AG], elevation[AG])))
 __CPROVER_ensures(!op_save_elevation ==> SAME_D(elevation_snapshot[AGC], __CPROVER_old(elevation_snapshot[AGC])))
 """,
-)
+    )
 
 
 # ---------------------------------------------------------------- harnesses
@@ -302,7 +323,7 @@ H_GRAPH = H_COMMON + r"""
 void h_snapshot_save_graph(void)
 {
     size_t gsize = nondet_size_t(); _Bool snap_single_flow = nondet_bool(), src_single_flow = nondet_bool();
-    %s
+    %s   /* pointers outside the group's focus stay invalid: any access through them is a failed obligation */
     AG = nondet_size_t();
     snapshot_save_graph(%s);
     __CPROVER_assert(0, "canary: postcondition point reachable");
@@ -347,9 +368,10 @@ void h_snapshot_save_graph_b(void)
 """ % (_decls(), BND, G_ARGS)
 
 
-def defines(src_w, dst_w, nb):
-    return ["SRC_W=%d" % src_w, "DST_W=%d" % dst_w, "DON_W=%d" % (nb + 1),
-            "SRC_REC_BYTES=%d" % (8 * src_w), "DST_REC_BYTES=%d" % (8 * dst_w), "DON_BYTES=%d" % (8 * (nb + 1))]
+def defines(src_w, dst_w, nb, focus=()):
+    return (["SRC_W=%d" % src_w, "DST_W=%d" % dst_w, "DON_W=%d" % (nb + 1),
+             "SRC_REC_BYTES=%d" % (8 * src_w), "DST_REC_BYTES=%d" % (8 * dst_w), "DON_BYTES=%d" % (8 * (nb + 1))]
+            + ["FOCUS_%s=1" % f for f in focus])
 
 
 def _called(unit, names):
@@ -363,42 +385,59 @@ def _called(unit, names):
     return [n for n in names if re.search(r"\b%s\(" % n, body)]
 
 
-SUPPORTING = r"container model:"
+# supporting (not deciding) obligations: the container-model shape check, and the unwinding assertion that cuts a loop
+# which has no loop contract (a changed body with an explicit element loop): such a body is "proof detached" in the
+# unbounded groups and is judged by the bounded stand-in
+SUPPORTING = r"container model:|unwinding assertion"
+UNWIND = 24
+WIDTHS = [(1, 1, "w1to1"), (8, 1, "w8to1"), (8, 8, "w8to8")]   # (live receiver width, snapshot receiver width)
+NB = 8
+WHAT = {
+    "receivers": "receivers", "receivers_count": "receivers_count", "receivers_distance": "receivers_distance",
+    "receivers_weight": "receivers_weight", "donors": "donors (all columns)", "donors_count": "donors_count",
+    "dfs_indices": "dfs_indices (bottom-up order)", "bfs_indices": "bfs_indices", "bfs_levels": "bfs_levels including its length",
+}
 
 
 def groups():
     gs = []
-    # (live width, snapshot width, n_neighbors_max): single/single, multi-width live graph with a single-flow
-    # snapshot (the case where column 0 != the first gsize flat cells), multi/multi
-    for (sw, dw, nb, tag) in [(1, 1, 8, "w1to1"), (8, 1, 8, "w8to1"), (8, 8, 8, "w8to8")]:
-        gs.append(Group(
-            name="snapshot.save.graph.%s" % tag, units=[save_graph], harness=H_GRAPH,
-            entry="h_snapshot_save_graph", enforce="snapshot_save_graph", loop_contracts=True,
-            defines=defines(sw, dw, nb), backend="sat", timeout=600, min_obligations=60, supporting=SUPPORTING,
-            clause="C16 save.covers_state + save.no_alias: after _save(graph) every table a snapshot graph exposes (receivers, "
-                   "receivers_count, receivers_distance, receivers_weight -- column 0 for a single-flow snapshot, all columns otherwise --, "
-                   "donors (all columns), donors_count, dfs_indices, bfs_indices, bfs_levels incl. its length) equals the source at an "
-                   "arbitrary cell; only snapshot tables are written; any number of nodes; live receiver width %d, snapshot width %d" % (sw, dw)))
+    for name, ty, kind in TABLES:
+        # receiver tables: single/single, multi-width live graph with a single-flow snapshot (the case where column 0 is
+        # not the first gsize flat cells), multi/multi.  The other tables do not depend on the receiver widths.
+        for (sw, dw, tag) in (WIDTHS if kind == "rec" else [(8, 1, "")]):
+            gs.append(Group(
+                name="snapshot.save.graph.%s%s" % (name, "." + tag if tag else ""), units=[make_save_graph([name])], harness=H_GRAPH,
+                entry="h_snapshot_save_graph", enforce="snapshot_save_graph", loop_contracts=True, unwind=UNWIND,
+                defines=defines(sw, dw, NB, [name]), backend="sat", timeout=300, min_obligations=40, supporting=SUPPORTING,
+                clause="C16 save.covers_state + save.no_alias for the table %s: after _save(graph) it equals the source at an arbitrary "
+                       "cell%s; only snapshot tables are written; any number of nodes%s"
+                       % (WHAT[name], " (column 0 for a single-flow snapshot, every column otherwise)" if kind == "rec" else "",
+                          "; live receiver width %d, snapshot width %d" % (sw, dw) if kind == "rec" else "")))
     gs.append(Group(
-        name="snapshot.save.elevation", units=[save_graph, save_elevation], harness=H_ELEV,
+        name="snapshot.save.elevation", units=[make_save_graph([]), save_elevation], harness=H_ELEV,
         entry="h_snapshot_save_elevation", enforce="snapshot_save_elevation", loop_contracts=True,
-        defines=defines(8, 1, 8), backend="sat", timeout=300, min_obligations=10, supporting=SUPPORTING,
+        defines=defines(8, 1, NB), backend="sat", timeout=300, min_obligations=10, supporting=SUPPORTING,
         clause="C16 elevation_snapshot: after _save(elevation) the snapshot equals the elevation passed at an arbitrary cell; the "
                "argument is outside the write frame"))
+    # save(): callee contracts for three representative tables (a size_t receiver table, a double receiver table, the
+    # dynamic-length order table); the dispatch itself does not depend on which tables the callee contract mentions
+    foc = ["receivers", "receivers_weight", "bfs_levels"]
+    sv = make_save(foc)
     gs.append(Group(
-        name="snapshot.save.dispatch", units=[save_graph, save_elevation, save], harness=H_SAVE,
+        name="snapshot.save.dispatch", units=[make_save_graph(foc), save_elevation, sv], harness=H_SAVE,
         entry="h_snapshot_save", enforce="snapshot_save",
-        replace=_called(save, ["snapshot_save_graph", "snapshot_save_elevation"]),
-        defines=defines(8, 1, 8), backend="sat", timeout=300, min_obligations=20, supporting=SUPPORTING,
-        clause="C16 save(): the graph snapshot is (re)written exactly when the operator's save_graph() flag is set and then covers the "
-               "whole state, the elevation snapshot exactly when save_elevation() is set; otherwise the stored snapshot is untouched"))
+        replace=_called(sv, ["snapshot_save_graph", "snapshot_save_elevation"]),
+        defines=defines(8, 1, NB, foc), backend="sat", timeout=300, min_obligations=20, supporting=SUPPORTING,
+        clause="C16 save(): the graph snapshot is (re)written exactly when the operator's save_graph() flag is set and then satisfies the "
+               "_save contract, the elevation snapshot exactly when save_elevation() is set; otherwise the stored snapshot is untouched "
+               "(callee contracts instantiated for receivers, receivers_weight, bfs_levels)"))
     gs.append(Group(
-        name="snapshot.save.graph.bounded_w8to1", units=[save_graph], harness=H_GRAPH_BOUNDED,
+        name="snapshot.save.graph.bounded_receivers.w8to1", units=[make_save_graph(["receivers"])], harness=H_GRAPH_BOUNDED,
         entry="h_snapshot_save_graph_b", enforce="snapshot_save_graph", unwind=BND + 2,
-        defines=defines(8, 1, 8), backend="sat", timeout=600, min_obligations=60, supporting=SUPPORTING,
+        defines=defines(8, 1, NB, ["receivers"]), backend="sat", timeout=300, min_obligations=40, supporting=SUPPORTING,
         bounded="graphs of at most %d nodes (all loops unwound %d times)" % (BND, BND + 2),
-        clause="bounded stand-in of save.covers_state that also judges bodies containing explicit element loops (no loop contract "
-               "needed); live width 8, snapshot width 1"))
+        clause="bounded stand-in of save.covers_state for the receivers table that also judges bodies containing explicit element "
+               "loops (no loop contract needed); live width 8, snapshot width 1"))
     return gs
 
 
@@ -412,6 +451,10 @@ PROPS = {
             "obligation 'container model:' (xtensor itself would resize the destination)",
             "xtensor column-view assignment `auto c = xt::col(dst, 0); c = xt::col(src, 0);` modelled as dst(i,0) = src(i,0) for every "
             "row i, with the widths of both tables (SRC_W, DST_W) taken into account",
+            "write-target lemma split: one group per snapshot table; in the group of table T an assignment into another table is "
+            "skipped after the syntactic frame check that its target is a snapshot table (each table is a separately allocated "
+            "buffer, so such an assignment cannot touch T); the tables outside the focus are invalid pointers in that group, so any "
+            "other access through them fails",
             "table shapes as allocated by the flow_graph_impl constructor (receiver tables gsize x width, donors gsize x "
             "(n_neighbors_max+1), orders gsize, bfs_levels <= gsize+1 with its current length as part of the state); width facts from "
             "the C20 constructor contracts: single-flow snapshot <=> snapshot width 1; a multi-direction snapshot implies the live "
